@@ -275,7 +275,9 @@ static void scen_sema(void) {
 }
 
 /* ---- scenario 4: I/O channel released with a read in flight ---- */
-static struct { int fds[2]; dispatch_io_t ch; int read_done, read_invocations, cleanup_runs, handler_running; size_t got, sent; uint64_t last_handler_end, cleanup_stamp; int closed_by_client; } IO;
+static struct { int fds[2]; dispatch_io_t ch; int read_done, read_invocations, cleanup_runs, handler_running; size_t got, sent; uint64_t last_handler_end, cleanup_stamp; int closed_by_client;
+	int retarget, barrier_runs, tq_fin[2], tq_released[2]; dispatch_queue_t tq[2]; } IO;   // retarget: the channel is given target queues its creator lets go of at once, with a barrier pending
+static void io_tq_fin(void *ctx) { int i = (int)(intptr_t)ctx - 1; IO.tq_fin[i]++; if (IO.tq_fin[i] > 1) h_viol("finalizer-twice", "the finalizer of a channel's target queue ran %d times", IO.tq_fin[i]); if (!IO.tq_released[i]) h_viol("finalizer-early", "a channel's target queue was finalised while its creator still held it"); h_progress(); }
 static void *io_client(void *arg) {
 	int c = (int)(intptr_t)arg;
 	sim_event_wait(&L.go, LIVENESS_NS);
@@ -295,6 +297,13 @@ static void *io_client(void *arg) {
 			IO.handler_running--;
 			h_progress();
 		});
+		if (IO.retarget) {
+			// a barrier is pending when the channel is moved to another target queue; nobody but the channel holds the old one
+			dispatch_io_barrier(IO.ch, ^{ IO.barrier_runs++; (void)dispatch_io_get_descriptor(IO.ch); h_progress(); });
+			for (int k = (int)(RC.seed >> 28 & 7); k > 0; k--) sim_point();
+			dispatch_set_target_queue(IO.ch, IO.tq[1]);
+			IO.tq_released[1] = 1; dispatch_release(IO.tq[1]);
+		}
 	} else if (c == 1) {
 		char buf[64]; memset(buf, 'x', sizeof buf);
 		for (int i = 0; i < L.nitems_per; i++) { ssize_t r = write(IO.fds[1], buf, 1 + (size_t)(i * 17 % 64)); if (r > 0) IO.sent += (size_t)r; sim_sleep_ns((uint64_t)(10 + 15 * i) * USEC); }
@@ -328,6 +337,12 @@ static void scen_io(void) {
 	dispatch_set_context(IO.ch, &L.ctx1); dispatch_set_finalizer_f(IO.ch, finalizer_obj);
 	dispatch_io_set_low_water(IO.ch, 1);
 	sim_watch(IO.ch, 160);
+	IO.retarget = g_chance(1, 3);
+	if (IO.retarget) {
+		for (int i = 0; i < 2; i++) { IO.tq[i] = dispatch_queue_create(i ? "c17-iotq2" : "c17-iotq1", i ? DISPATCH_QUEUE_CONCURRENT : NULL); dispatch_set_context(IO.tq[i], (void *)(intptr_t)(i + 1)); dispatch_set_finalizer_f(IO.tq[i], io_tq_fin); }
+		dispatch_set_target_queue(IO.ch, IO.tq[0]);
+		IO.tq_released[0] = 1; dispatch_release(IO.tq[0]);
+	}
 	for (int i = 1; i < L.nclients; i++) dispatch_retain(IO.ch);
 	sim_thread *th[MAXC];
 	for (int i = 0; i < L.nclients; i++) th[i] = sim_spawn(io_client, (void *)(intptr_t)i, "c17-client");
@@ -342,6 +357,11 @@ static void scen_io(void) {
 	{ uint64_t t0 = sim_now(); while (!IO.cleanup_runs && sim_now() - t0 < 5 * NSEC) sim_sleep_ns(10 * MSEC); }   // closes the descriptor; not judged here
 	if (L.f_obj.stamp < IO.last_handler_end) h_viol("finalizer-early", "the channel's finalizer ran before the last invocation of its read handler had finished");
 	if (!IO.closed_by_client && IO.got != IO.sent) h_viol("harness-io", "read %zu of %zu bytes", IO.got, IO.sent);
+	if (IO.retarget) {
+		uint64_t t0 = sim_now(); while ((!IO.tq_fin[0] || !IO.tq_fin[1] || !IO.barrier_runs) && sim_now() - t0 < LIVENESS_NS) sim_sleep_ns(20 * MSEC);
+		if (IO.barrier_runs != 1) h_viol("barrier-count", "a barrier submitted to the channel before it was given a new target queue ran %d times", IO.barrier_runs);
+		if (IO.tq_fin[0] != 1 || IO.tq_fin[1] != 1) h_viol("finalizer-missing", "the finalizers of the two queues the channel targeted ran %d and %d times after the channel was gone", IO.tq_fin[0], IO.tq_fin[1]);
+	}
 	if (OWNED(L.obj)) h_viol("not-freed", "the channel's memory is still allocated after its finalizer ran");
 	if (IO.fds[1] >= 0) close(IO.fds[1]);
 	dispatch_release(L.root);
